@@ -20,7 +20,7 @@ func with(base propFn, extra ...propFn) propFn {
 // Registry maps a property id to the function that adds its obligations to the report.
 var Registry = map[string]func(*core.Prog, *core.Report){
 	"C01": with(C01, frameGroup, batchGroup),
-	"C02": with(C02, frameGroup, batchGroup, mergeGroup, cf2RecoveryIgnoresLimit),
+	"C02": with(C02, frameGroup, batchGroup, mergeGroup, cf2RecoveryIgnoresLimit, cl1CloseAll, fn1NamesSortLikeIds),
 	"C03": with(C03, frameGroup, batchGroup, mergeGroup),
 	"C04": with(C04, batchGroup, frameGroup, ps3Rotate),
 	"C05": with(C05, batchGroup),
@@ -28,17 +28,17 @@ var Registry = map[string]func(*core.Prog, *core.Report){
 	"C07": with(C07, mergeGroup, mergeFlagRules, rm1RemovalTargets),
 	"C08": with(C08, func(p *core.Prog, rep *core.Report) {
 		newVF(p, rep).vf2(nil)
-	}, pool2SingleRelease, cd7LogicalSize),
-	"C09": with(C09, pool2SingleRelease, pool3BufferSingleRelease, bt1PutType, lk13BackendState),
-	"C10": C10,
+	}, pool2SingleRelease, pool4NoUseAfterRelease, cd7LogicalSize),
+	"C09": with(C09, pool2SingleRelease, pool3BufferSingleRelease, pool4NoUseAfterRelease, bt1PutType, lk13BackendState),
+	"C10": with(C10, it1FilterAfterMove),
 	"C11": with(C11, frameGroup),
 	"C12": with(C12, frameGroup),
 	"C13": with(C13, cfg1OptionsImmutable),
-	"C14": with(C14, cfg1OptionsImmutable, mg3Only, cf2RecoveryIgnoresLimit, batchGroup),
-	"C15": with(C15, pool2SingleRelease, pool3BufferSingleRelease, rt2Decoded),
+	"C14": with(C14, cfg1OptionsImmutable, mg3Only, cf2RecoveryIgnoresLimit, batchGroup, cl1CloseAll, fn1NamesSortLikeIds),
+	"C15": with(C15, pool2SingleRelease, pool3BufferSingleRelease, pool4NoUseAfterRelease, rt2Decoded),
 	"C16": with(C16, rm1RemovalTargets),
-	"C17": with(C17, bt3FlushLoopComplete),
-	"C18": with(C18, mergeGroup),
+	"C17": with(C17, bt3FlushLoopComplete, cd11Only),
+	"C18": with(C18, mergeGroup, cd11Only),
 	"C19": with(C19, batchGroup),
 	"C20": with(C20, ps5MergeOnly, lk13BackendState, vf3MergeOnly),
 }
@@ -55,6 +55,13 @@ func mg3Only(p *core.Prog, rep *core.Report) {
 func ps5MergeOnly(p *core.Prog, rep *core.Report) {
 	m := newMergeCtx(p, rep)
 	m.ps5MergeOrder()
+	m.mp1MergePath()
+}
+
+// cd11Only: writer and sequential reader report the same size for one record (C17: Stat after a restart; C18: hint
+// sizes vs scan sizes).
+func cd11Only(p *core.Prog, rep *core.Report) {
+	cd11SizePerChunk(p, rep, layoutOf(p, chunkWriter(p), true).typ+1)
 }
 
 // mergeFlagRules: at most one Merge works on the scratch directory (C07: a second Merge running beside the first wipes
